@@ -73,6 +73,10 @@ pub enum Op {
     BurnRemaining { caller: usize, funds: Vec<(u8, u128)> },
     UpdStart { caller: usize, t: u64, funds: Vec<(u8, u128)> },
     UpdLimit { caller: usize, l: u32, funds: Vec<(u8, u128)> },
+    /// overwrite the minter's cw2 info when `stored` is given, then `who` migrates the minter to the same code
+    Migrate { who: usize, stored: Option<(String, String)> },
+    /// governance: sudo UpdateParams on the token-merge factory
+    SudoParams { max_limit: Option<u32>, airdrop_price: Option<u128>, shuffle_fee: Option<u128>, add_code_id: Option<u64>, offset: Option<u64> },
 }
 impl Op {
     pub fn kind(&self) -> &'static str {
@@ -87,6 +91,8 @@ impl Op {
             Op::BurnRemaining { .. } => "burn_remaining",
             Op::UpdStart { .. } => "update_start_time",
             Op::UpdLimit { .. } => "update_per_address_limit",
+            Op::Migrate { .. } => "migrate",
+            Op::SudoParams { .. } => "factory_sudo_update_params",
         }
     }
 }
@@ -127,6 +133,7 @@ pub struct World {
     pub factory: Addr,
     pub puppet: Addr,
     pub minter: Addr,
+    pub minter_code: u64,
     pub target: Addr,
     pub colls: Vec<Addr>,
 }
@@ -147,6 +154,7 @@ pub struct Obs {
     pub positions: Vec<(u32, u32)>, // raw MINTABLE_TOKEN_POSITIONS
     pub tgt_all: Vec<String>,       // AllTokens of the target collection
     pub tgt_supply: u64,            // NumTokens of the target collection
+    pub cw2: (String, String),      // cw2 contract info of the minter
 }
 
 pub fn account(i: usize, w: &World) -> String {
@@ -306,7 +314,7 @@ pub fn build(case: &Case) -> Result<World, String> {
         .query_wasm_smart(&minter, &token_merge_minter::msg::QueryMsg::Config {})
         .map_err(|e| e.to_string())?;
     let target = Addr::unchecked(cfg.sg721_address);
-    Ok(World { app, factory, puppet, minter, target, colls })
+    Ok(World { app, factory, puppet, minter, minter_code, target, colls })
 }
 
 fn funds_of(f: &[(u8, u128)]) -> Vec<Coin> {
@@ -387,6 +395,43 @@ pub fn apply(w: &mut World, op: &Op) -> Result<AppResponse, String> {
             let s = account(*caller, w);
             chain::exec(&mut w.app, &s, &minter, &M::UpdatePerAddressLimit { per_address_limit: *l }, &funds_of(funds))
         }
+        Op::Migrate { who, .. } => {
+            let s = Addr::unchecked(account(*who, w));
+            let code = w.minter_code;
+            match crate::util::catch(|| w.app.migrate_contract(s, minter.clone(), &Empty {}, code)) {
+                Ok(Ok(r)) => Ok(r),
+                Ok(Err(e)) => Err(format!("{:#}", e)),
+                Err(p) => Err(p),
+            }
+        }
+        Op::SudoParams { max_limit, airdrop_price, shuffle_fee, add_code_id, offset } => {
+            use token_merge_factory::msg::{SudoMsg, TokenMergeUpdateParamsExtension, UpdateMinterParamsMsg};
+            let m = SudoMsg::UpdateParams(Box::new(UpdateMinterParamsMsg {
+                code_id: None,
+                add_sg721_code_ids: add_code_id.map(|c| vec![c]),
+                rm_sg721_code_ids: None,
+                frozen: None,
+                creation_fee: None,
+                max_trading_offset_secs: *offset,
+                extension: TokenMergeUpdateParamsExtension {
+                    max_token_limit: None,
+                    max_per_address_limit: *max_limit,
+                    airdrop_mint_price: airdrop_price.map(|a| coin(a, NATIVE)),
+                    airdrop_mint_fee_bps: None,
+                    shuffle_fee: shuffle_fee.map(|a| coin(a, NATIVE)),
+                },
+            }));
+            let f = w.factory.clone();
+            chain::sudo(&mut w.app, &f, &m)
+        }
+    }
+}
+
+/// the harness's own part of a Migrate step: put the chosen cw2 info into the minter's storage
+pub fn prepare(w: &mut World, op: &Op) {
+    if let Op::Migrate { stored: Some((n, v)), .. } = op {
+        let m = w.minter.clone();
+        crate::w_migrate::set_cw2(&mut w.app, &m, n, v);
     }
 }
 
@@ -515,6 +560,7 @@ pub fn observe(w: &World, case: &Case) -> Obs {
         n.count
     };
     Obs {
+        cw2: crate::w_migrate::get_cw2(&w.app, &w.minter),
         positions,
         tgt_all,
         tgt_supply,
@@ -534,9 +580,13 @@ pub fn observe(w: &World, case: &Case) -> Obs {
 fn nlist(v: &[u64]) -> String {
     format!("[{}]", v.iter().map(|x| x.to_string()).collect::<Vec<_>>().join("; "))
 }
-pub fn obs_coq(ok: bool, o: &Obs) -> String {
+fn cw2_coq(c: &(String, String)) -> String {
+    format!("(\"{}\"%string, \"{}\"%string)", c.0, c.1)
+}
+/// `cw2_after`: Some(info found after the call) on Migrate steps, None otherwise
+pub fn obs_coq(ok: bool, o: &Obs, cw2_after: Option<&(String, String)>) -> String {
     format!(
-        "(mkObs {} {} {} {} {} {} {} {})",
+        "(mkObs {} {} {} {} {} {} {} {} {})",
         if ok { "true" } else { "false" },
         nlist(&o.ledger),
         nlist(&o.counts),
@@ -544,12 +594,38 @@ pub fn obs_coq(ok: bool, o: &Obs) -> String {
         o.start,
         o.limit,
         nlist(&o.src),
-        nlist(&o.tgt)
+        nlist(&o.tgt),
+        match cw2_after {
+            Some(c) => format!("(Some {})", cw2_coq(c)),
+            None => "None".to_string(),
+        }
     )
 }
 
-pub fn op_coq(op: &Op, pick: u64) -> String {
+/// the step as the Coq checker sees it (`xstep`); `pre_cw2` = cw2 info in storage when the call was made
+pub fn op_coq(op: &Op, pick: u64, pre_cw2: &(String, String)) -> String {
     match op {
+        Op::Migrate { who, .. } => return format!("XMigrate {} {}", if *who == CREATOR { "true" } else { "false" }, cw2_coq(pre_cw2)),
+        Op::SudoParams { max_limit, airdrop_price, shuffle_fee, .. } => {
+            let o = |x: Option<u128>| match x {
+                Some(v) => format!("(Some {})", v),
+                None => "None".to_string(),
+            };
+            return format!("XSudo {} {} {}", o(max_limit.map(|x| x as u128)), o(*airdrop_price), o(*shuffle_fee));
+        }
+        _ => {}
+    }
+    format!("XOp ({})", wop_coq(op, pick))
+}
+pub fn cw2_after(op: &Op, post: &Obs) -> Option<(String, String)> {
+    match op {
+        Op::Migrate { .. } => Some(post.cw2.clone()),
+        _ => None,
+    }
+}
+fn wop_coq(op: &Op, pick: u64) -> String {
+    match op {
+        Op::Migrate { .. } | Op::SudoParams { .. } => unreachable!(),
         Op::Send { coll, user, tok, garbage, recip } => format!(
             "WSend {} {} {} {} {} {}",
             COLL_ID0 + *coll as u64,
